@@ -4,7 +4,9 @@ stdin JSON {"cases": [...]} -> 'RESULT <json list of observations>'.
 Case (times in ms relative to the instant of the call; history on whole seconds or 400/600 ms after one, time-trigger offsets = 250 mod 1000,
 timeouts = 500 mod 1000 (or 0), state_hold = 750 mod 1000, cancel instants = 125 mod 250 (or 0)):
   {"sub": "legacy"|"dm",
-   "st": null | {"cn": null|bool, "init": "T"|"F"|"X", "hold": null|ms},      state_trigger="int(pyscript.v) > 0"
+   "st": null | {"cn": null|bool, "init": "T"|"F"|"X", "hold": null|ms, "hf": null|ms},   state_trigger="int(pyscript.v) > 0"
+   "others": [] | subset of ["wmut", "w2", "fnkw"]   concurrent listeners of pv_e: a looping waiter that edits the dict it got,
+                                        a looping waiter with a filter that clears its dict, an @event_trigger function with kwargs=
    "tt": null | [offset_ms, ...]        time_trigger=["once(now + <o>s)" | "once(now - <o>s)" for negative offsets]
    "ev": null | {"filter": bool}        event_trigger="pv_e" | ["pv_e", "x == 1"]
    "to": null | ms                      timeout (0 allowed)
@@ -71,6 +73,35 @@ def pv_waiter():
         event.fire("pv_exc", typ=type(exc).__name__, msg=str(exc)[:200])
         return
     event.fire("pv_ret", d=pv_enc(r))
+    task.sleep(0.01)
+    event.fire("pv_ret2", d=pv_enc(r))
+"""
+
+# concurrent listeners of the awaited event type: a second waiter that edits the dictionary it got, and a trigger
+# function with kwargs= (both must not be visible in anybody else's dictionary)
+SCRIPT_WMUT = """
+@event_trigger("pv_go2")
+def pv_waiter_b():
+    while True:
+        r = task.wait_until(event_trigger="pv_e")
+        event.fire("pv_ret_b", d=pv_enc(r))
+        r["pv_mut"] = 1
+        r.pop("n", None)
+        r["x"] = 99
+"""
+SCRIPT_W2 = """
+@event_trigger("pv_go2")
+def pv_waiter_c():
+    while True:
+        r = task.wait_until(event_trigger=["pv_e", "n > 0"])
+        event.fire("pv_ret_c", d=pv_enc(r))
+        r.clear()
+"""
+SCRIPT_FNKW = """
+@event_trigger("pv_e", kwargs={"pv_kw": 7})
+def pv_fn(**kw):
+    event.fire("pv_fn", d=pv_enc(kw))
+    kw["pv_fn_mut"] = 1
 """
 
 
@@ -87,6 +118,8 @@ def make_args(case):
             a.append("state_check_now=" + ("True" if st["cn"] else "False"))
         if st.get("hold") is not None:
             a.append(f"state_hold={secs(st['hold'])}")
+        if st.get("hf") is not None:
+            a.append("state_hold_false=" + ("0" if st["hf"] == 0 else secs(st["hf"])))
     if case.get("tt") is not None:
         specs = [f"once(now + {secs(o)}s)" if o >= 0 else f"once(now - {secs(-o)}s)" for o in case["tt"]]
         a.append(f"time_trigger={specs!r}")
@@ -173,8 +206,16 @@ async def run_case(case):
         hass.states.async_set("pyscript.v", v0, {"n": 0})
         hass.states.async_set("pyscript.u", "u0", {"n": 0})
         await env.settle()
-        env.write("c15.py", SCRIPT_HEAD % make_args(case))
+        others = case.get("others") or []
+        src = SCRIPT_HEAD % make_args(case)
+        for key, text in (("wmut", SCRIPT_WMUT), ("w2", SCRIPT_W2), ("fnkw", SCRIPT_FNKW)):
+            if key in others:
+                src += text
+        env.write("c15.py", src)
         await env.reload()
+        if others:
+            hass.bus.async_fire("pv_go2", {})
+            await env.settle()
         last = [v0, 0]
         written = {}
 
@@ -288,6 +329,23 @@ async def run_case(case):
             obs["leak"] = None
             obs["other"] = []
         obs["leak_end"] = diff(before, at_end)
+        # second look at the same dictionary 10 ms later, and the other listeners' own dictionaries
+        looks = [d.get("d") for (_t, typ, d) in env.events if typ == "pv_ret2"]
+        killed_in_between = cancelled_at is not None and obs["t"] <= cancelled_at <= obs["t"] + 10 and not looks
+        if obs["exit"] == "ret" and not killed_in_between and (len(looks) != 1 or looks[0] != obs.get("raw")):
+            obs["dict_ok"] = False
+            obs["look2"] = looks[:1]
+        if others:
+            std = {"trigger_type": "event", "event_type": "pv_e", "context": "Context"}
+            fired = [written[kk] for kk in sorted(written) if isinstance(written[kk], dict)]
+            want = {"pv_ret_b": [dict(std, **w) for w in fired] if "wmut" in others else [],
+                    "pv_ret_c": [dict(std, **w) for w in fired] if "w2" in others else [],
+                    "pv_fn": [dict(std, pv_kw=7, **w) for w in fired] if "fnkw" in others else []}
+            for typ, exp in want.items():
+                got = [d.get("d") for (_t, ty, d) in env.events if ty == typ]
+                if got != exp:
+                    obs["dict_ok"] = False
+                    obs.setdefault("others_bad", []).append([typ, got[:3], exp[:3]])
         obs["err"] = [m[:200] for (_n, lvl, m) in env.log.records if lvl in ("ERROR", "CRITICAL")][:4]
         return obs
 
